@@ -114,7 +114,7 @@ def c01(tier):
 # ------------------------------------------------------------------------------------------- C05
 @prop("C05",
       functions=["h3NeighborRotations", "directionForNeighbor", "_h3Rotate60ccw", "_h3Rotate60cw", "_h3RotatePent60ccw", "_h3LeadingNonZeroDigit", "_rotate60ccw", "_isBaseCellPentagon", "_baseCellIsCwOffset", "_isBaseCellPolarPentagon"],
-      bounds={"quick": "neighbour step closure/distinctness/symmetry: all valid cells of resolutions 0-5 (closure also 15; pentagon-neighbour symmetry 0-3) x 6 directions; k=1 through every disk entry point at res 0 (unsafe/ring variants also res 1), gridDisksUnsafe on every pair of origins at res 0, areNeighborCells on every pair of res-0 cells",
+      bounds={"quick": "neighbour step closure/distinctness/symmetry: all valid cells of resolutions 0-5 (closure and hexagon symmetry also 15; pentagon-neighbour symmetry 0-3) x 6 directions; k=1 through every disk entry point at res 0 (unsafe/ring variants also res 1), gridDisksUnsafe on every pair of origins at res 0, areNeighborCells on every pair of res-0 cells",
               "thorough": "all valid cells of all 16 resolutions x 6 directions; k=1 disks and areNeighborCells end to end at res 0-2"},
       outside="k>=2 beyond res 0, globe-wrapping disks, sufficiency of maxGridDiskSize at large k",
       assumptions=["cells are constructed as cell(r) + assume(isValidCell), justified by C01.H1"],
@@ -124,7 +124,7 @@ def c05(tier):
     qres = [0, 1, 2, 3, 4, 5, 15]
     for r in ALLRES:
         for kind in ("CLOSURE", "DISTINCT", "SYMHEX", "SYMPENT"):
-            t = "quick" if (r in qres and not (r == 15 and kind != "CLOSURE") and not (kind == "SYMPENT" and r >= 4)) else "thorough"
+            t = "quick" if (r in qres and not (r == 15 and kind not in ("CLOSURE", "SYMHEX")) and not (kind == "SYMPENT" and r >= 4)) else "thorough"
             j = J("nbr_%s_r%d" % (kind.lower(), r), "C05_nbr.c", ["-DRES=%d" % r, "-D" + kind], unwind=r + 2,
                   est=20 + 10 * r, tier=t, mem=("M" if kind == "SYMPENT" and r >= 3 else "S"), bound="all valid cells of resolution %d x all directions" % r, timeout=1800)
             if kind == "SYMPENT" and r >= 9:
